@@ -148,6 +148,11 @@ impl Buildpack for Bp {
         let spec = &self.script["build"];
         match spec.get("result").and_then(Value::as_str).unwrap_or("ok") {
             "ok" => {
+                if spec.get("optional_layer").and_then(Value::as_bool).unwrap_or(false) {
+                    // a layer the buildpack can do without: <layers>/optional.toml is planted as a link into a directory that does not exist, so
+                    // writing the layer's TOML fails; the error is handled and the build goes on to return its result
+                    let _ = c.uncached_layer(layer_name!("optional"), UncachedLayerDefinition { build: true, launch: true });
+                }
                 let mut b = BuildResultBuilder::new();
                 // the builder's setters can be called in any order ("order": a permutation of launch / store / bsbom / lsbom)
                 let default_order = [json!("launch"), json!("store"), json!("bsbom"), json!("lsbom")];
